@@ -427,3 +427,41 @@ add({"name": "type_body", "file": "dfs/cmd_type.cc",
                (r"std::vector<byte> data\(body_start, body_end\);", "struct bytebuf data = bytebuf_from(body_start, body_end);", 1),
                (r"for \(byte& ch : data\)", "for (size_t di_ = 0; di_ < data.n; ++di_) TYPE_LOOP_CONTRACT", 1),
                (r"data\.data\(\)", "data.d", 1), (r"data\.size\(\)", "data.n", 1)]})
+
+# ---- cmd_extract_unused.cc (C11 dfs half, C14): write_span --------------------------------------------------------
+add({"name": "write_span", "file": "dfs/cmd_extract_unused.cc",
+     "anchor": r"bool write_span\(DFS::AbstractDrive \*drive,[^)]*?sector_count_type end_sector\)",
+     "sig": "static bool write_span(struct DataAccess *drive, sector_count_type start_sector, sector_count_type end_sector)",
+     "pre": "#define output (&ofs_obj)\n", "post": "#undef output\n",
+     "rules": [ASSERT(1),
+               (r"const std::string file_name\(make_name\(dest_dir, start_sector\)\);", "/* file_name = make_name(dest_dir, start_sector): see C12 */", 1),
+               (r"std::ofstream output\(file_name, std::ofstream::binary\|std::ofstream::trunc\);", "ofs_open(output);", 1),
+               (r"if \(!output\)", "if (!ofs_ok(output))", 3),
+               (r'std::cerr << "unable to create output file " << file_name << "\\n";', "g_diag++;", 1),
+               (r"auto got = drive->read_block\(([^;]*)\);", r"opt_SectorBuffer got = DataAccess_read_block(drive, \1);", 1),
+               (r"if \(!got\)", "if (!got.has)", 1),
+               (r'std::cerr << "warning: failed to read sector number " << sec << "\\n";', "g_diag++; g_read_warning = 1;", 1),
+               (r"errno = 0;", "/* errno = 0 */", 1),
+               (r"output\.write\(reinterpret_cast<char\*>\(got->data\(\)\), got->size\(\)\);", "ofs_write(output, got.val.d, SECTOR_BYTES);", 1),
+               (r"output\.close\(\);", "ofs_close(output);", 1),
+               (r'std::cerr << "error: failed to write to " << file_name << ": "\s*<< strerror\(errno\) << "\\n";', "g_diag++;", 1),
+               (r"(for \(sector_count_type sec = start_sector; sec < end_sector; \+\+sec\))", r"\1 SPAN_LOOP_CONTRACT", 1)],
+     "dropped": ["diagnostic texts", "the output file name (see C12)"]})
+
+# ---- track.cc (C06 iii, C07): check_track_is_supported ---------------------------------------------------------------
+ERR_SS = (r"ss << [^;]*;\s*error = ss\.str\(\);", "g_diag++;  /* diagnostic text dropped */")
+add({"name": "check_track_is_supported", "file": "dfs/track.cc",
+     "anchor": r"bool check_track_is_supported\(const std::vector<Sector> track_sectors,\s*unsigned int track,\s*unsigned int side,\s*unsigned int sector_bytes,\s*bool verbose,\s*std::string& error\)",
+     "sig": "static bool check_track_is_supported(const struct TrackSector *track_sectors, size_t track_sectors_n, unsigned int track, unsigned int side, unsigned int sector_bytes)",
+     "rules": [(r"assert\(std::is_sorted\(track_sectors\.begin\(\), track_sectors\.end\(\)\)\);", "/* assert(is_sorted) : precondition of the contract */", 1),
+               (r"std::optional<int> prev_rec_num;", "struct { _Bool has; int val; } prev_rec_num; prev_rec_num.has = 0; prev_rec_num.val = 0;", 1),
+               (r"for \(const Sector& sect : track_sectors\)", "for (size_t si_ = 0; si_ < track_sectors_n; ++si_) TRACKCHECK_LOOP_CONTRACT", 1),
+               (r"std::ostringstream ss;", "/* ostringstream dropped */", 1),
+               (ERR_SS[0], ERR_SS[1], 5),
+               (r"if \(prev_rec_num\)", "if (prev_rec_num.has)", 1),
+               (r"\*prev_rec_num", "prev_rec_num.val", 2),
+               (r"if \(verbose\)\s*\{.*?\}\s*\}", "/* verbose warning dropped */ }", 1),
+               (r"sect\.data\.size\(\)", "sect.data_n", ">=1"),
+               (r"prev_rec_num = sect\.address\.record;", "{ prev_rec_num.has = 1; prev_rec_num.val = sect.address.record; }", 1)],
+     "pre": "#define sect (track_sectors[si_])\n", "post": "#undef sect\n",
+     "dropped": ["diagnostic texts", "verbose warning about a lowest record number other than 0"]})
